@@ -5,7 +5,7 @@ from hypothesis import strategies as st
 
 from .. import gen
 from ..common import TOL, graph_from_json, inconclusive, invalid_config, ok, violation
-from ..models import flow_of, run_model, timed_out
+from ..models import flow_of, run_model, solver_artifact, timed_out
 from ..oracle import bf
 from ..oracle.routes import all_st_paths, check_route
 
@@ -164,6 +164,8 @@ def run_case(case, tier="quick"):
     if not r.solved:
         if timed_out(r):
             return inconclusive("time_limit", labels)
+        if solver_artifact(case, tier, r):
+            return inconclusive("solver artefact: solved only with HiGHS presolve off", labels)
         return violation("unsolved", f"MinFlowDecomp.solve() did not succeed although a decomposition with {meta.get('k0')} paths exists (planted)", labels, facts=facts)
     if r.sol_error:
         return violation("get_solution_crash", str(r.sol_error), labels, site=r.sol_error.site)
